@@ -19,6 +19,7 @@ Definition xcompile_a (sz : nat) (sp : list (str * list val)) (o : xop) : option
   | XSetItem n i => if mem n sp then (if (sz =? 0)%nat then None else Some (SetCol n (icol sz i)))
                     else if is_virtual n then None else Some (Create n i)
   | XSetObs n k v => if is_coord n then None else if mem n sp then (if (k <? sz)%nat then Some (SetCol n (set_nth (acol sp n) k v)) else None) else None
+  | XAddFun n c => if is_virtual n then None else if mem n sp then Some (SetCol n c) else Some (Create n (IList c))
   | XExpr _ => None
   end.
 
@@ -27,7 +28,7 @@ Definition xcompile_a (sz : nat) (sp : list (str * list val)) (o : xop) : option
 Definition xvalid (sz : nat) (o : xop) : bool :=
   match o with
   | XCreate _ (IList l) | XUpdate _ (IList l) | XSetItem _ (IList l) => (sz <=? List.length l)%nat
-  | XSetCol _ c => (List.length c =? sz)%nat
+  | XSetCol _ c | XAddFun _ c => (List.length c =? sz)%nat
   | XSetObs n _ _ => negb (is_coord n)
   | XExpr _ => false
   | _ => true
@@ -63,7 +64,7 @@ Lemma xstep_compile t o : Inv t -> xvalid (size t) o = true ->
   xstep t o = (match xcompile t o with Some b => step t b | None => t end) /\
   (forall b, xcompile t o = Some b -> valid_op (size t) b = true).
 Proof.
-  intros HI Hv. unfold xstep, xcompile. destruct o as [n i|n|n|n c|n i|n i|n k v|s]; cbn [xapply xcompile_a xvalid] in *.
+  intros HI Hv. unfold xstep, xcompile. destruct o as [n i|n|n|n c|n i|n i|n k v|n c|s]; cbn [xapply xcompile_a xvalid] in *.
   - split; [reflexivity|]. intros b [= <-]. destruct i; exact Hv.
   - split; [reflexivity|]. intros b [= <-]. reflexivity.
   - split; [reflexivity|]. intros b [= <-]. reflexivity.
@@ -103,6 +104,16 @@ Proof.
     + assert (Hl : lookup (dico t) n = None).
       { destruct (lookup (dico t) n) as [j|] eqn:E; [|reflexivity]. assert (mem n (abs t) = true) by (apply (lookup_mem t n HI); exists j; exact E). congruence. }
       rewrite Hl. split; [|discriminate]. destruct (size t <=? k)%nat; reflexivity.
+  - (* feature computed by a function *)
+    destruct (is_virtual n) eqn:Vn; [split; [reflexivity | discriminate]|].
+    destruct (mem n (abs t)) eqn:M.
+    + apply (lookup_mem t n HI) in M. destruct M as [j Hj].
+      assert (Hh : has_af t n = true) by (unfold has_af; rewrite Hj; reflexivity). rewrite Hh.
+      split; [reflexivity|]. intros b [= <-]. exact Hv.
+    + assert (Hl : lookup (dico t) n = None).
+      { destruct (lookup (dico t) n) as [j|] eqn:E; [|reflexivity]. assert (mem n (abs t) = true) by (apply (lookup_mem t n HI); exists j; exact E). congruence. }
+      assert (Hh : has_af t n = false) by (unfold has_af; rewrite Hl; exact Vn). rewrite Hh.
+      split; [reflexivity|]. intros b [= <-]. cbn [valid_op]. apply Nat.eqb_eq in Hv. apply Nat.leb_le. lia.
   - discriminate.
 Qed.
 
@@ -143,7 +154,7 @@ Proof.
 Qed.
 
 (* frame: coordinates and timestamps are untouched by every call that does not name a coordinate *)
-Definition xname (o : xop) : str := match o with XCreate n _ | XRemove n | XDelete n | XSetCol n _ | XUpdate n _ | XSetItem n _ | XSetObs n _ _ => n | XExpr s => s end.
+Definition xname (o : xop) : str := match o with XCreate n _ | XRemove n | XDelete n | XSetCol n _ | XUpdate n _ | XSetItem n _ | XSetObs n _ _ | XAddFun n _ => n | XExpr s => s end.
 
 Lemma step_coords t b : (match b with Create n _ | Remove n | SetCol n _ => is_coord n end) = false ->
   xs (step t b) = xs t /\ ys (step t b) = ys t /\ zs (step t b) = zs t /\ ts (step t b) = ts t.
@@ -167,7 +178,7 @@ Proof.
   destruct (xstep_compile t o HI Hv1) as [E _].
   assert (F : xs (xstep t o) = xs t /\ ys (xstep t o) = ys t /\ zs (xstep t o) = zs t /\ ts (xstep t o) = ts t).
   { rewrite E. destruct (xcompile t o) as [b|] eqn:Eb; [|auto]. apply step_coords.
-    unfold xcompile in Eb. destruct o as [n i|n|n|n c|n i|n i|n k v|s]; cbn [xcompile_a xname] in *.
+    unfold xcompile in Eb. destruct o as [n i|n|n|n c|n i|n i|n k v|n c|s]; cbn [xcompile_a xname] in *.
     - injection Eb as <-. exact Hc1.
     - injection Eb as <-. exact Hc1.
     - injection Eb as <-. exact Hc1.
@@ -176,6 +187,7 @@ Proof.
     - destruct (mem n (abs t)); [destruct (size t =? 0)%nat; [discriminate|]; injection Eb as <-; exact Hc1|].
       destruct (is_virtual n); [discriminate|]. injection Eb as <-. exact Hc1.
     - rewrite Hc1 in Eb. destruct (mem n (abs t)); [|discriminate]. destruct (k <? size t)%nat; [|discriminate]. injection Eb as <-. exact Hc1.
+    - destruct (is_virtual n); [discriminate|]. destruct (mem n (abs t)); injection Eb as <-; exact Hc1.
     - discriminate. }
   destruct F as [F1 [F2 [F3 F4]]]. repeat split; congruence.
 Qed.
